@@ -81,6 +81,9 @@ class Engine:
         self.contracts[qualname] = c
         return c
 
+    def declare_ghost(self, **types):
+        self.ghost_types.update(types)
+
     def declare_class(self, name, fields, open_=True, invariants=None, bases=None):
         qn = self.resolve_class(name) if name in self._class_by_short or "." in name else name
         d = self.classdecl.setdefault(qn, {"fields": {}, "open": open_, "invariants": []})
@@ -248,6 +251,7 @@ class Engine:
         sf.spec = True
         sf.old_heap = getattr(fr, "entry_heap", None)
         sf.old_locals = getattr(fr, "entry_locals", None)
+        sf.old_ghost = getattr(fr, "entry_ghost", None)
         return self.eval_spec_in(I, expr, sf)
 
     def eval_spec_in(self, I, expr, sf):
@@ -354,6 +358,7 @@ class Engine:
             fr.locals[p] = I.fresh_of_type(ty, p)
         for g, ty in (c.get("ghosts") or {}).items():
             st.ghost[g] = I.fresh_of_type(ty, "ghost." + g)
+            st.ghost_init[g] = st.ghost[g]
         for h in c.get("held") or []:
             lock = self.eval_spec(I, h, fr, {})
             st.held[self.lock_key(lock)] = 1
